@@ -26,46 +26,94 @@ import (
 	"verif/engine/report"
 )
 
-// horizon only turns a hang into a verdict; every case completes in well under a
-// millisecond on correct code. A hang must reproduce on 3 of 3 executions.
-const horizon = 60 * time.Second
+// Horizons only turn a blocked call into a verdict; they are stimulus bounds, not an oracle on
+// speed (every ordinary case completes in well under a millisecond, a 32 MiB rung in about a
+// second). A case that exceeds firstHorizon is re-executed alone with confirmHorizon; only if
+// that blocks too is it reported (class hang). Every call into the code under test (building
+// the request, Submit, GetBody inside the auth writer, reading and draining the body) happens
+// inside the guarded goroutine, on a fresh Runtime and request, so an abandoned goroutine
+// cannot block a later case. After maxConfirmedHangs confirmed hangs the mechanism is
+// established: later cases get shortHorizon and one that exceeds it is skipped and counted
+// (outcome hang:suspected-not-confirmed, run not exhaustive), never reported unconfirmed;
+// a sweep with more than maxSuspectedPerSweep skipped cases is abandoned.
+const (
+	firstHorizon         = 10 * time.Second
+	confirmHorizon       = 30 * time.Second
+	shortHorizon         = 1 * time.Second
+	maxConfirmedHangs    = 3
+	maxSuspectedPerSweep = 32
+)
 
-var hung atomic.Bool
-var profiling bool
+var (
+	confirmedHangs atomic.Int64
+	suspectedHangs atomic.Int64 // in the current sweep (sweeps run one after the other)
+	incomplete     atomic.Bool  // some case was skipped or a sweep abandoned
+	profiling      bool
+)
 
-func runOnce(c Case) (observed, bool) {
-	ch := make(chan observed, 1)
-	go func() { ch <- execute(c) }()
-	t := time.NewTimer(horizon)
+func within(d time.Duration, run func() verdict) (verdict, bool) {
+	ch := make(chan verdict, 1)
+	go func() { ch <- run() }()
+	t := time.NewTimer(d)
 	defer t.Stop()
 	select {
-	case o := <-ch:
-		return o, true
+	case v := <-ch:
+		return v, true
 	case <-t.C:
+		select { // the process may have been stopped as a whole: a result that is there counts
+		case v := <-ch:
+			return v, true
+		default:
+		}
+		return verdict{}, false
+	}
+}
+
+// guarded runs one case under the two-stage horizon. mult scales the horizons for cases that
+// legitimately take longer (size ladder, sequences).
+func guarded(mult time.Duration, what string, run func() verdict) verdict {
+	h1 := firstHorizon * mult
+	if confirmedHangs.Load() >= maxConfirmedHangs {
+		h1 = shortHorizon
+		if mult > 1 {
+			h1 = 2 * shortHorizon // skipping is harmless (never reported), so no need to scale further
+		}
+	}
+	if v, ok := within(h1, run); ok {
+		return v
+	}
+	if confirmedHangs.Load() >= maxConfirmedHangs {
+		suspectedHangs.Add(1)
+		incomplete.Store(true)
+		return verdict{outcomes: []string{"hang:suspected-not-confirmed"}}
+	}
+	if v, ok := within(confirmHorizon*mult, run); ok {
+		return v
+	}
+	confirmedHangs.Add(1)
+	return verdict{class: "hang", outcomes: []string{"hang:confirmed"},
+		what: fmt.Sprintf("%s did not finish within %v, nor within %v when re-executed", what, h1, confirmHorizon*mult)}
+}
+
+// runOnce executes an ordinary case once under the confirmation horizon (replay printing).
+func runOnce(c Case) (o observed, ok bool) {
+	_, ok = within(confirmHorizon, func() verdict { o = execute(c); return verdict{} })
+	if !ok {
 		return observed{}, false
 	}
+	return o, true
 }
 
 // check decides one case: pure function of the case (the oracle is insensitive to
 // the client's map iteration order).
 func check(c Case) verdict {
-	if c.Payload == "sequence" {
+	switch c.Payload {
+	case "sequence":
 		return checkSequence(c)
-	}
-	if c.Payload == "ladder" {
+	case "ladder":
 		return checkLadder(c)
 	}
-	o, ok := runOnce(c)
-	if !ok {
-		for i := 0; i < 2 && !ok; i++ {
-			o, ok = runOnce(c)
-		}
-		if !ok {
-			hung.Store(true)
-			return verdict{class: "hang", what: fmt.Sprintf("building and sending the request did not finish within %v, 3 times out of 3", horizon)}
-		}
-	}
-	return judge(c, o)
+	return guarded(1, "building and sending the request", func() verdict { return judge(c, execute(c)) })
 }
 
 // ---- axes ----
@@ -586,7 +634,15 @@ func main() {
 		total := sw.total()
 		nchunks := (total + chunk - 1) / chunk
 		var cases atomic.Int64
-		enum.Parallel(nchunks, func() bool { return r.OutOfTime() || hung.Load() }, func(ci int) {
+		suspectedHangs.Store(0)
+		abandoned := func() bool {
+			if suspectedHangs.Load() > maxSuspectedPerSweep {
+				incomplete.Store(true)
+				return true
+			}
+			return false
+		}
+		enum.Parallel(nchunks, func() bool { return r.OutOfTime() || abandoned() }, func(ci int) {
 			idx := make([]int, len(sw.sizes))
 			var evals, nontrivial int64
 			outcomes := map[string]int64{}
@@ -594,6 +650,9 @@ func main() {
 				c, ok := sw.at(i, idx)
 				if !ok {
 					continue
+				}
+				if abandoned() || r.OutOfTime() {
+					break // polled per case: a chunk of blocked cases must not be waited out
 				}
 				v := check(c)
 				evals++
@@ -627,6 +686,7 @@ func main() {
 	if r.Thorough() {
 		rungs = []int{4095, 4096, 4097, 32767, 32768, 32769, 65537, 1<<20 + 1, 10<<20 - 1, 10 << 20, 10<<20 + 1, 32<<20 + 1}
 	}
+	suspectedHangs.Store(0)
 	var ladder []Case
 	for _, n := range rungs {
 		for _, k := range []string{"reader", "readcloser", "bytes", "file"} {
@@ -654,7 +714,7 @@ func main() {
 				defer wg.Done()
 				for {
 					i := int(next.Add(1) - 1)
-					if i >= len(ladder) || r.OutOfTime() || hung.Load() {
+					if i >= len(ladder) || r.OutOfTime() || suspectedHangs.Load() > 2*ladderWorkers {
 						return
 					}
 					c := ladder[i]
@@ -690,6 +750,6 @@ func main() {
 	if profiling {
 		pprof.StopCPUProfile()
 	}
-	exhaustive := !hung.Load()
+	exhaustive := !incomplete.Load() && confirmedHangs.Load() == 0
 	r.Finish("ten full products plus the size ladder (A nil/value/reader payloads; B URL-encoded forms; C1 one-file contents; C2 form structures; C3 names; C4 edge values in names and field values; B2 spellings of the media type; D1 upload sources and D2 reader payloads with Seek/ReadAt/WriteTo capabilities x honest/failing/lying x Close errors x a read fault at the k-th Read x chunking; D3 real FIFOs; E adaptive sequences of 2-3 multipart requests on one Runtime or fresh ones, each later request embedding the boundaries read from the earlier requests' Content-Type headers in file content / field value / file name; F every payload of A plus forms through Runtime.Submit with a capturing transport x non-reading / reading auth x Debug off/on; G size ladder, see size_ladder), each tuple executed once on Runtime.CreateHttpRequest and the sent body read to EOF; in D a delivered fault permits a failed build or send, every success is held to the exact-bytes oracle; non-trivial = a non-nil payload produced a request whose sent bytes were parsed/compared with the reference (distinct by construction: the enumerators never repeat a tuple, sweeps differ in payload kind, shape or source)", exhaustive)
 }
